@@ -300,7 +300,7 @@ def rule_C(chk, Fa, Fb, name_a, name_b):
 
 def run(chk, facts_by_config):
     chk.trusted += ['rustc: identical MIR => identical function', 'the rewrite rules of analysis/terms.py (rule S)']
-    chk.undecided += ['AES: AES-NI vs ARMv8 vs fixslice64 vs fixslice32 compute the same function',
+    chk.undecided += ['AES: AES-NI / ARMv8 compute the same function as the software implementation',
                       'Kuznyechik: SSE2 vs NEON vs table vs compact back-ends compute the same function']
     names = list(facts_by_config)
     pairs = [(a, a + '-all') for a in names if a + '-all' in facts_by_config]
@@ -314,3 +314,9 @@ def run(chk, facts_by_config):
     if 'x64-soft' in facts_by_config and 'x64-alt1' in facts_by_config:
         n = rule_C(chk, facts_by_config['x64-soft'], facts_by_config['x64-alt1'], 'x64-soft', 'x64-alt1')
         chk.floor('C-aes-compact', n, 'C.x64-soft')
+    # fixslice64 (x86-64) vs fixslice32 (i686), and vs the software arm on AArch64: the bit-level canonical form abstracts
+    # from how the bitsliced state is packed into words
+    for other in ('x86', 'a64'):
+        if 'x64-soft' in facts_by_config and other in facts_by_config:
+            n = rule_C(chk, facts_by_config['x64-soft'], facts_by_config[other], 'x64-soft', other)
+            chk.floor('C-aes-compact', n, 'C.x64-soft~' + other)
